@@ -109,6 +109,40 @@ def run(ctx):
     fact("term_resume_resends_pen", "Bool",
          lambda: "true" if re.search(r"vtable->chpen\s*\)\s*\(\s*tt->driver\s*,\s*tt->pen\s*,\s*tt->pen\s*\)", re_) else "false")
 
+    # the test that guards write(2) on the output descriptor, in tickit_term_flush and in the unbuffered arm of
+    # write_str: a boolean combination of comparisons of tt->outfd with integer constants, translated to Lean
+    def fd_guard(body):
+        cond = grab(body, r"else\s+if\s*\(([^{};]*?)\)\s*\{?\s*write\s*\(\s*tt->outfd\s*,")
+        if cond is None:
+            return None
+        ops = {"!=": "≠", "==": "=", ">=": "≥", "<=": "≤", ">": ">", "<": "<"}
+        atom = r"\s*tt->outfd\s*(!=|==|>=|<=|>|<)\s*(-?\s*\d+)\s*"
+        out, rest = [], cond
+        while True:
+            m = re.match(atom, rest)
+            if not m:
+                raise ValueError("condition " + cond)
+            out.append("fd %s %s" % (ops[m.group(1)], m.group(2).replace(" ", "")))
+            rest = rest[m.end():]
+            if not rest:
+                break
+            m = re.match(r"(&&|\|\|)", rest)
+            if not m:
+                raise ValueError("condition " + cond)
+            out.append("∧" if m.group(1) == "&&" else "∨")
+            rest = rest[m.end():]
+        return "fun fd => decide (" + " ".join(out) + ")"
+    fl, ws = func_body(term, "tickit_term_flush"), func_body(term, r"static\s+void\s+write_str")
+    fact("flush_fd_guard", "Int → Bool", lambda: fd_guard(fl))
+    fact("write_str_fd_guard", "Int → Bool", lambda: fd_guard(ws))
+    # the function wins over the descriptor in both places: `if(tt->outfunc) (*tt->outfunc)(…) else if(… outfd …)`
+    fact("flush_func_before_fd", "Bool", lambda: "true" if re.search(r"if\s*\(\s*tt->outfunc\s*\)\s*\(\s*\*\s*tt->outfunc\s*\)\s*\([^;]*\)\s*;\s*else\s+if\s*\([^{};]*outfd", fl) else "false")
+    fact("write_str_func_before_fd", "Bool", lambda: "true" if re.search(r"else\s+if\s*\(\s*tt->outfunc\s*\)\s*\{?\s*\(\s*\*\s*tt->outfunc\s*\)\s*\([^;]*\)\s*;\s*\}?\s*else\s+if\s*\([^{};]*outfd", ws) else "false")
+    # tickit_term_set_output_fd stores the number it is given; "no descriptor" is -1 (tickit_term_build's initial value)
+    sof = func_body(term, "tickit_term_set_output_fd")
+    fact("set_output_fd_stores", "Bool", lambda: "true" if re.search(r"^\s*tt->outfd\s*=\s*fd\s*;", sof) else "false")
+    fact("outfd_initial", "Int", lambda: int(grab(term, r"tt->outfd\s*=\s*(-?\d+)\s*;")))
+
     # ------------------------------------------------------------------ termdriver-xterm.c
     start = func_body(xterm, r"static\s+void\s+start")
     def start_fmts():
